@@ -166,6 +166,20 @@ def solve_smt2(o, timeout_ms=20000, cvc5=True, both=False):
             o['model'] = model_to_json(s.model())
         except Exception:
             o['model'] = None
+        if o.get('replay_paths'):
+            try:
+                from nreplay import extract as _nx
+                m_ = s.model()
+                consts = {d.name(): d for d in m_.decls() if d.name().startswith('rp!')}
+                vals = {}
+                for k_, path_ in enumerate(o['replay_paths']):
+                    d_ = consts.get('rp!%d' % k_)
+                    if d_ is not None:
+                        vals[path_] = _nx.model_value(m_, d_())
+                o['replay_inputs'] = _nx.record(vals)
+            except Exception as e_:
+                o['replay_inputs'] = None
+                o['replay_error'] = str(e_)
     else:
         o['status'] = 'unknown'
         o['goal'] = smt2[-1500:]
